@@ -37,7 +37,8 @@ SPEC = {'id': 'C04',
          'unknown ids / duplicated, two timeout generations) whose annotated event list is replayed on the Lean model, '
          "plus forced-race schedules (timer between two lock acquisitions, forced with the package's own "
          'snowflakeLock) compared with explicit label traces; non-trivial = at least one event; distinct = distinct '
-         '(class, event list)',
+         '(class, event list)'
+         " Plus oracle-only scenarios outside the model's quantifier (a proxy polling again under the same session id while its earlier match is still in progress, answered and unanswered): every request completes, nothing registered, gauge 0 and a fresh client denied at quiescence. The template that replays ClientOffers' statements by hand lives in an optional harness part that is dropped when it no longer compiles.",
  'level_text': 'From every reachable state of the broker model every unfinished poll / client / answer request is '
                'driven to its response by at most 8 / 6 / 2 system steps (timer firings included), proved by a rank '
                'argument over an inductive invariant; at quiescence both heaps and the id map are empty, the gauge is '
